@@ -149,6 +149,8 @@ def build_blocks(edzed, cfg, hist, fail_start=False):
     blocks['td'] = edzed.TimeDate('td', times=cfg['td_times'], persistent=True, **exp('td'))
     blocks['ts'] = edzed.TimeSpan('ts', span=cfg['ts_span'], persistent=True, **exp('ts'))
     blocks['frg'] = Fragile('frg', persistent=True)
+    # the same without saving after each event (sync_state off): saved at the stop only
+    blocks['frg_ns'] = Fragile('frg_ns', persistent=True, sync_state=False)
     blocks['plain'] = edzed.Input('plain', initdef=0)       # not persistent
     # an event handled during the clean-up (stop_data of an output block) by a persistent block
     blocks['fin'] = edzed.Input('fin', initdef='running', persistent=True)
@@ -312,11 +314,13 @@ def life1(case, ctx):
                     stale.discard(name)
                     edzed.ExtEvent(blocks[name], etype).send(**data)
                 elif op == 'boom':
+                    target = step[1] if len(step) > 1 else 'frg'
+                    info['boom_target'] = target
                     try:
-                        edzed.ExtEvent(blocks['frg'], 'boom').send('corrupted')
+                        edzed.ExtEvent(blocks[target], 'boom').send('corrupted')
                     except Boom:
                         pass
-                    disabled.add('frg')
+                    disabled.add(target)
             except edzed.EdzedInvalidState:
                 break
             except Exception as err:    # pylint: disable=broad-except
@@ -333,7 +337,7 @@ def life1(case, ctx):
             else:
                 # the simulation was aborted by the failing handler
                 snap = storage.snapshot()
-                key = blocks['frg'].key
+                key = blocks[info.get('boom_target', 'frg')].key
                 before = points[-1]['snapshot'].get(key)
                 ctx.count('handler_failure_not_saved')
                 if snap.get(key) != before:
@@ -342,7 +346,8 @@ def life1(case, ctx):
                          f"{label}: storage[{key}] changed {before!r} -> {snap.get(key)!r}"))
                 break
         aborted = not circuit.is_ready()
-        frg_before = storage.snapshot().get(blocks['frg'].key)
+        boom_target = info.get('boom_target', 'frg')
+        frg_before = storage.snapshot().get(blocks[boom_target].key)
         t_stop = wall()
         expiry_at_stop = {name: wall_expiry(blocks[name]) for name in ('fsm', 'tmr', 'iexp')}
         try:
@@ -350,10 +355,11 @@ def life1(case, ctx):
         except BaseException:   # pylint: disable=broad-except
             pass
         snap = storage.snapshot()
-        if 'frg' in disabled and snap.get(blocks['frg'].key) != frg_before:
+        if boom_target in disabled and snap.get(blocks[boom_target].key) != frg_before:
             info['violations'].append(
                 ('state-saved-after-handler-failure',
-                 f"at stop: storage[frg] {frg_before!r} -> {snap.get(blocks['frg'].key)!r}"))
+                 f"at stop: storage[{boom_target}] {frg_before!r} -> "
+                 f"{snap.get(blocks[boom_target].key)!r}"))
         # regular stop: everything saved + timestamp
         ctx.count('regular_stop_checked')
         if info.get('started') and snap.get(blocks['fin'].key) != 'final':
@@ -743,7 +749,7 @@ def random_case(rng):
     case = {'cfg': cfg, 'steps': steps}
     r = rng.random()
     if r < 0.12:
-        steps.insert(rng.randint(1, len(steps)), ['boom'])
+        steps.insert(rng.randint(1, len(steps)), ['boom', rng.choice(['frg', 'frg', 'frg_ns'])])
     elif r < 0.2:
         case['fail_start'] = rng.choice([True, 'first_step'])
         case['prefill'] = {"<Input 'inp'>": 'old', "<Counter 'cnt'>": 4}
